@@ -9,6 +9,7 @@
 (*   rxpop          the driver takes a payload out of its RX FIFO              *)
 (*   ret            write()/multicast() returns to the application             *)
 (*   deq            the application reads a frame                              *)
+(*   inject         a frame from outside the modelled tree enters a radio      *)
 (*   end            quiescence at the end of the scenario                      *)
 (* and every event must be the NetNode action the model allows in the state    *)
 (* reached; the first event that is not names the clause it contradicts.       *)
@@ -63,6 +64,11 @@ PopV(e) ==
   LET n == e.n IN
   IF tx[n] # NoTx THEN OwedClause(n)
   ELSE IF res[n] # "none" THEN <<"drift.PopAfterResult", "payload read after the call's result was known">>
+  ELSE IF rx[n] # <<>> /\ Head(rx[n]) # Fr(e.f) /\ (\E i \in 1..Len(rx[n]) : rx[n][i] = Fr(e.f)) THEN
+       \* payloads that entered the radio before this one were never read: the driver discarded them (a flush)
+       IF Head(rx[n]).dst # n /\ Head(rx[n]).dst # MCAST
+       THEN <<"C05.RouterForwards", "a frame that entered a router's radio was never taken for forwarding (it vanished from the RX FIFO)">>
+       ELSE <<"C05.Delivered", "a frame that entered its destination's radio was never read (it vanished from the RX FIFO)">>
   ELSE IF rx[n] = <<>> \/ Head(rx[n]) # Fr(e.f) THEN <<"drift.RxOrder", "payload read is not the head of the modelled FIFO">>
   ELSE <<"ok", "">>
 
@@ -96,7 +102,11 @@ EndV ==
        LET n == CHOOSE n \in Tree : q[n] # <<>> IN
        IF Head(q[n]).dst = MCAST THEN <<"C14.ExactlyLevel", "a multicast heard by the radio never reached the application">>
        ELSE <<"C05.Delivered", "a frame that arrived at its destination never reached the application">>
-  ELSE IF \E n \in Tree : rx[n] # <<>> THEN <<"C07.Listening", "payloads left unread in a radio at quiescence">>
+  ELSE IF \E n \in Tree : rx[n] # <<>> THEN
+       LET n == CHOOSE n \in Tree : rx[n] # <<>> IN
+       IF Head(rx[n]).dst # n /\ Head(rx[n]).dst # MCAST
+       THEN <<"C05.RouterForwards", "a frame that entered a router's radio was never taken for forwarding (it vanished from the RX FIFO)">>
+       ELSE <<"C05.Delivered", "a frame that entered its destination's radio was never read (it vanished from the RX FIFO)">>
   ELSE IF \E n \in Tree : call[n] # NoFrame \/ wait[n] # NoFrame THEN <<"drift.End", "a call never returned">>
   ELSE <<"ok", "">>
 
@@ -133,13 +143,22 @@ Step ==
      \/ /\ e.k = "deq"
         /\ IF DeqV(e)[1] = "ok" THEN Deq(e.n) /\ verdict' = verdict
            ELSE UNCHANGED vars /\ verdict' = DeqV(e)
+     \/ /\ e.k = "inject"          \* environment: a frame sent by a neighbour outside the modelled tree enters a radio
+        /\ IF Len(rx[e.m]) < FIFO
+           THEN /\ rx' = [rx EXCEPT ![e.m] = Append(@, Fr(e.f))] /\ UNCHANGED <<q, tx, wait, res, call, hvars>>
+                /\ verdict' = verdict
+           ELSE UNCHANGED vars /\ verdict' = <<"drift.Fifo", "injection into a full FIFO">>
      \/ /\ e.k = "end" /\ UNCHANGED vars /\ verdict' = EndV
 
 TSpec == TInit /\ [][Step]_tvars
 \* the model's own invariants are evaluated in every state the real execution drives it through
 \* (at-most-once and one NETWORK_ACK per message are only promised while no attempt re-entered a receiver, see ReArrive)
 NoRe == \A i \in 1..Len(Tr.ev) : (i < l /\ Tr.ev[i].k = "arrive") => ~Tr.ev[i].again
-Inv == C13_WaitOnlyIfNeeded /\ C13_AckOnlyIfOwed /\ C14_ExactlyLevel /\ (NoRe => C13_AckOnce /\ C05_AtMostOnce)
+\* (frames injected from outside the tree were not Written in the model: only their copies are counted)
+AtMostOnceT == \A i \in 1..Len(deliv) : LET n == deliv[i][1]  f == deliv[i][2] IN
+                  Copies(n, f) = 1 /\ (f.dst # MCAST => n = f.dst)
+AckOnceT    == \A i \in 1..Len(acks) : AcksFor(acks[i][2]) <= 1
+Inv == C13_WaitOnlyIfNeeded /\ C13_AckOnlyIfOwed /\ C14_ExactlyLevel /\ (NoRe => AckOnceT /\ AtMostOnceT)
 Report == (verdict[1] # "ok" \/ l > Len(Tr.ev)) =>
             PrintT("VERDICT " \o ToString(<<tid, l - 1, IF verdict[1] = "ok" /\ ~Inv THEN "NetNode.Invariant" ELSE verdict[1], verdict[2]>>))
 =============================================================================
